@@ -4,7 +4,7 @@
 # suite, runs the demonstration with the change (must fail) and without it (must pass). Prints one JSON line.
 SRC=$1; L=$2
 export GOFLAGS=-mod=mod GOPROXY=off GOSUMDB=off GOTOOLCHAIN=local
-W=/tmp/sw/$L; rm -rf $W; mkdir -p /tmp/sw
+W=/tmp/sw/$L; rm -rf $W; mkdir -p /tmp/sw /tmp/seedres
 git -C /repo worktree add -q --detach $W HEAD || exit 2
 trap 'git -C /repo worktree remove --force $W >/dev/null 2>&1; rm -rf $W' EXIT
 cd $W
@@ -31,7 +31,11 @@ PY
 if [ $applied = ok ]; then
   if go build ./... >/tmp/seedres/$L.build.log 2>&1; then build=ok; else build=fail; fi
   if [ $build = ok ]; then
-    if go test -vet=off -count=1 -timeout 25m ./... >/tmp/seedres/$L.suite.log 2>&1; then suite=pass; else suite=fail; fi
+    # the pinned suite writes /tmp/pegnet-tmp.db (fixed path): one suite at a time. TestConversions_Convert_Random draws
+    # random inputs and fails in roughly 4 of 10 runs on the unchanged tree as well ("integer overflow"): not counted.
+    if flock /tmp/seedres/suite.lock go test -vet=off -count=1 -timeout 25m ./... >/tmp/seedres/$L.suite.log 2>&1; then suite=pass
+    elif [ -z "$(grep -E '^--- FAIL' /tmp/seedres/$L.suite.log | grep -v 'TestConversions_Convert_Random')" ] && ! grep -q '^panic\|build failed' /tmp/seedres/$L.suite.log; then suite=pass-except-randomised-test
+    else suite=fail; fi
     cp $T $pkgdir/
     if go test -vet=off -count=1 -timeout 10m -run "$run" ./$pkgdir/ >/tmp/seedres/$L.with.log 2>&1; then demo_with=pass; else demo_with=fail; fi
     git checkout -q -- . ; git stash -q 2>/dev/null; git checkout -q -- .
